@@ -31,7 +31,8 @@ CONSTANTS
     MaxAcks,        \* bound on ack messages
     AliasGrants,    \* may the broker grant data-id aliases?
     CloseShortcut,  \* TRUE = Close skips the wait when the highest seq is acked (as coded at the pinned commit)
-    MaxConflicts    \* resume answered with ResumeRequestConflict at most this many times
+    MaxConflicts,   \* resume answered with ResumeRequestConflict at most this many times
+    RecordScript    \* TRUE: keep the environment projection in `script` (FALSE for liveness checking: no VIEW there)
 
 VARIABLES s, script
 vars == <<s, script>>
@@ -61,7 +62,7 @@ Init0 ==
 
 Init == s = Init0 /\ script = <<>>
 
-Say(op) == script' = Append(script, op)
+Say(op) == script' = IF RecordScript THEN Append(script, op) ELSE script
 Quiet == UNCHANGED script
 
 IsFlush(sz) == CASE Policy = "size" -> sz > Threshold
@@ -123,11 +124,12 @@ FlushServe(f) ==
 \* go sendChunkAndWaitAck: read u.wireConn, write the chunk (the context is not consulted)
 SendChunk(c) ==
     /\ c \in s.toSend
-    /\ IF s.wireOf = s.conn /\ s.alive /\ c[2] = s.gen
+    /\ IF s.wireOf = s.conn /\ s.alive /\ c[2] = s.gen /\ s.runst = "running"
        THEN s' = [s EXCEPT !.toSend = @ \ {c},
                            !.bRecv = Append(@, <<"chunk", s.conn, c[1], s.chunks[c[1]].enc>>),
                            !.awaiting = IF Running(s) THEN @ \cup {c} ELSE @]
-       ELSE s' = [s EXCEPT !.toSend = @ \ {c}]    \* write error (or stale generation): the goroutine returns, the chunk stays stored
+       ELSE s' = [s EXCEPT !.toSend = @ \ {c}]    \* write error, or a sender of a finished generation: its chunk carries the old stream alias,
+                                                  \* which the broker does not know on the new connection (DESIGN section 8 #14): the chunk stays stored
     /\ Quiet
 
 \* ---------------------------------------------------------------- broker acks
@@ -147,6 +149,12 @@ BAck(S, desc, grant) ==
                       !.ackQ = Append(@, [res |-> SeqOfSet(S, desc), al |-> grant]),
                       !.sentRes = @ \o SeqOfSet(S, desc)]
     /\ Say([a |-> "ack", seqs |-> SeqOfSet(S, desc), grant |-> SetToSeq(grant)])
+
+\* the same broker step without the bounds on acks and duplicates (used only as the fair broker of the liveness specification)
+BAckFair(S) ==
+    /\ s.alive /\ s.wireOf = s.conn /\ ~s.closed /\ s.ackQ = <<>> /\ s.resQ = <<>> /\ s.aliasQ = <<>>
+    /\ s' = [s EXCEPT !.bAcked = @ \cup S, !.ackQ = Append(@, [res |-> SeqOfSet(S, FALSE), al |-> {}]), !.sentRes = @ \o SeqOfSet(S, FALSE)]
+    /\ UNCHANGED script
 
 \* readAckLoop: aliasCh <- ack.DataIDAliases ; resCh <- ack.Results
 RouteAck ==
@@ -292,6 +300,20 @@ Next ==
     \/ \E q \in s.resendQ : ResendNext(q)
 
 Spec == Init /\ [][Next]_vars
+
+\* ---- liveness (C02): fairness of every library step, of the redial and of a broker that answers the resume and acknowledges
+SysStep == \/ \E w \in Writers : Absorb(w)
+           \/ CutNeeded \/ (\E f \in Flushers : FlushServe(f)) \/ (\E c \in s.toSend : SendChunk(c))
+           \/ RouteAck \/ ProcAlias \/ ProcResult \/ (\E c \in s.gotRes : WaiterDone(c))
+           \/ CloseFlushServe \/ CloseCheck \/ CloseWait \/ CloseSend \/ CloseResp \/ FinalFlush
+           \/ Detect \/ WatcherFire \/ ResumeCut \/ (\E q \in s.resendQ : ResendNext(q))
+\* a cooperative broker acknowledges what it received on the current connection and has not acknowledged there yet
+\* (a retransmitted chunk is acknowledged again): every chunk the client is still waiting for
+AckAllUnacked == LET S == RecvdOn(s, s.conn) \cap (s.wait \cup { c[1] : c \in s.awaiting }) IN S # {} /\ BAckFair(S)
+FairNext == Next \/ AckAllUnacked
+FairSpec == Init /\ [][FairNext]_vars /\ WF_vars(SysStep) /\ WF_vars(Redial) /\ WF_vars(ResumeOk) /\ WF_vars(AckAllUnacked)
+\* once failures have stopped, every cut chunk has reached the broker -- unless the stream was reported closed
+EventuallyDelivered == <>[]((1..s.seq) \subseteq RecvdSeqs(s) \/ s.closedErr \/ s.closed)
 
 \* ================================================================== properties (design level)
 Flat(x, d) == \* concatenation over all chunks, in seq order, of the tokens of data id d, then the buffer
